@@ -38,6 +38,11 @@ def mutations(nodes, rnd):
             m = copy.deepcopy(nodes)
             set_path(m[i]["parameters"], path, mutate_scalar(leaf, rnd))
             out.append(("parameter-value:depth%d" % len(path), m, i))
+            # the smallest changes of a value are changes too: edge whitespace, letter case, 1 vs 1.0 vs True, "" vs null
+            for label, new in subtle_variants(leaf):
+                m = copy.deepcopy(nodes)
+                set_path(m[i]["parameters"], path, new)
+                out.append((f"parameter-value-subtle:{label}", m, i))
         if sweep:
             sw = n["derive"]["parameter_sweep"]
             m = copy.deepcopy(nodes)
@@ -125,6 +130,25 @@ def set_path(v, path, new):
     for p in path[:-1]:
         v = v[p]
     v[path[-1]] = new
+
+
+def subtle_variants(x):
+    if isinstance(x, str):
+        out = [("trailing-space", x + " "), ("leading-space", " " + x), ("trailing-newline", x + "\n")]
+        if x.swapcase() != x:
+            out.append(("letter-case", x.swapcase()))
+        if x == "":
+            out.append(("empty-vs-null", None))
+        return out
+    if isinstance(x, bool):
+        return [("bool-vs-int", int(x))]
+    if isinstance(x, int):
+        return [("int-vs-float", float(x)), ("int-vs-string", str(x))]
+    if isinstance(x, float):
+        return [("float-vs-string", str(x))]
+    if x is None:
+        return [("null-vs-empty", ""), ("null-vs-string", "null")]
+    return []
 
 
 def mutate_scalar(x, rnd):
